@@ -21,6 +21,7 @@ pub mod shim;
 pub mod sim;
 pub mod strategy;
 pub mod vclock;
+pub mod window;
 
 pub use event::{Ev, Event, UserEv};
 pub use sim::{run, Monitor, ClockCfg, ClockFault, ClockFaultKind, Failure, FaultPlan, RunConfig, RunResult};
